@@ -211,7 +211,7 @@ def run_unsquash(case, obs):
 def cases(tier, seed):
     q = tier == "quick"
     n = 0
-    kinds = ["runs", "flatrows", "stripes", "zero", "max", "vrepeat", "random", "altnib", "corners"]
+    kinds = ["runs", "flatrows", "stripes", "zero", "max", "vrepeat", "random", "altnib", "corners", "carry"]
     reps = 1 if q else 25
     for rep in range(reps):
         for kind in kinds:
@@ -232,7 +232,7 @@ def cases(tier, seed):
                 n += 1
                 base = {"kind": kind, "preset": preset, "seed": seed * 104729 + n, "sample": n % 60 == 1}
                 yield dict(base, fmt="cm3", two=False, pat=True)
-                if not q or kind in ("vrepeat", "flatrows", "runs"):
+                if not q or kind in ("vrepeat", "flatrows", "runs", "carry"):
                     yield dict(base, fmt="cm3", two=True, pat=(n % 2 == 0))
     yield {"fmt": "rat", "kind": "runs", "preset": "escape-in-data", "seed": seed + 5, "low3": True}
     for esc in (0, 1, 10, 13, 26, 0x24, 0x2E, 0x5C, 0x7C, 0x7F, 0x80, 0xFF):
